@@ -241,6 +241,8 @@ def build(spec, plain=False):
             w._vh = 200 + (whash[nres[0]] if whash and nres[0] < len(whash) else nres[0])
             nres[0] += 1
             team.add_worker(w)
+            if ws.get("absence_after") is not None:
+                w.absence_time_list = list(ws["absence_after"])  # the calendar is assigned after construction, exactly as written (unsorted, repeated entries)
             if ws.get("team_id"):
                 w.team_id = ws["team_id"]  # a worker on loan: listed here, administratively member of another team (save/load checks only)
             m.workers.append(w)
@@ -262,6 +264,8 @@ def build(spec, plain=False):
                 workamount_skill_sd_map={},
                 absence_time_list=list(fs.get("absence", [])),
             )
+            if fs.get("absence_after") is not None:
+                f.absence_time_list = list(fs["absence_after"])
             f._vh = 300 + len(m.facilities)
             wp.add_facility(f)
             m.facilities.append(f)
@@ -310,8 +314,11 @@ def build(spec, plain=False):
                     wp.output_workplace_list = shared
     order = spec.get("order") or list(range(len(m.tasks)))
     wf = BaseWorkflow([m.tasks[i] for i in order])
+    init_dt = INIT_DT
+    if spec.get("init_tz_hours") is not None:
+        init_dt = INIT_DT.replace(tzinfo=datetime.timezone(datetime.timedelta(hours=spec["init_tz_hours"])))  # a timezone-aware project start
     m.project = BaseProject(
-        init_datetime=INIT_DT,
+        init_datetime=init_dt,
         unit_timedelta=datetime.timedelta(minutes=spec.get("unit_min", 1)),
         product=BaseProduct(list(m.components)),
         workflow=wf,
